@@ -51,7 +51,7 @@ def programs(draw, target):
             if "period" in cfg["kw"]:
                 cfg["kw"]["period"] = 2 + len(members)
             members.append({"cfg": cfg, "tf": tf})
-        head = {"target": "hexital", "members": members, "tf": draw(st.sampled_from((None, None, None, "T5")))}
+        head = {"target": "hexital", "members": members, "tf": draw(st.sampled_from((None, None, None, "T5"))), "pre_reads": draw(st.lists(st.sampled_from(("settings", "str", "name", "has_reading", "as_list")), max_size=3))}
     n = draw(st.integers(1, 30))
     step = draw(st.sampled_from((60, 60, 150, 300, 600)))
     start = gs.BASE_DAY + draw(st.sampled_from((0, 60, 90, 299)))
@@ -79,6 +79,8 @@ def programs(draw, target):
             pos += size
     ops.append({"op": "read", "what": draw(st.sampled_from(reads)), "arg": 0})
     head["ops"] = ops
+    # a candle lifespan (steady state: one candle in, one out) in a third of the programs
+    head["lifespan"] = draw(st.sampled_from((None, None, 4 * step, 9 * step)))
     return head
 
 
@@ -113,35 +115,71 @@ def encode(rows, enc):
     return items[0] if enc.endswith("_single") else items
 
 
-def _state(obj):
-    """everything observable about an indicator (recursively its helpers) except object identities"""
+def _public(obj):
+    """public attributes of an indicator and, recursively, of its helpers (private fields such as caches are
+    implementation detail: they are judged through what the accessors return, see _observe)"""
     from hexital.core.indicator import Indicator
 
     out = {}
     for k, v in sorted(vars(obj).items()):
-        if k in ("candles", "_candles"):
+        if k == "candles" or k.startswith("_"):
             continue
         if k in ("sub_indicators", "managed_indicators"):
-            out[k] = {name: _state(sub) for name, sub in v.items()}
+            out[k] = {name: _public(sub) for name, sub in v.items()}
         elif isinstance(v, Indicator):
-            out[k] = _state(v)
+            out[k] = _public(v)
         elif k == "candlestick_type":
             out[k] = type(v).__name__
         elif callable(v):
             out[k] = getattr(v, "__name__", "callable")
         else:
             out[k] = repr(v)
-    out["#candles"] = snap(vars(obj).get("candles") or [])
-    out["#has_candles_attr"] = "candles" in vars(obj)
     return out
 
 
+def _observe_indicator(ind):
+    """what a user can see of an indicator through its read-only API"""
+    cs = vars(ind).get("candles")
+    out = {"has_candles_attr": cs is not None, "public": _public(ind)}
+    if cs is None:
+        return out
+    out["candles"] = snap(cs)
+    out["name"] = ind.name
+    out["settings"] = repr(ind.settings)
+    out["as_list"] = ind.as_list()
+    out["has_reading"] = ind.has_reading
+    out["reading_count"] = ind.reading_count()
+    if cs:
+        out["reading"] = ind.reading()
+        out["prev_reading"] = ind.prev_reading()
+        out["reading_period3"] = ind.reading_period(3)
+        out["candles_sum2"] = ind.candles_sum(2, "close")
+    return out
+
+
+def _state(obj):
+    """observed on a deep copy, so that observing neither disturbs the object nor counts as a read on the twin"""
+    return _observe_indicator(deepcopy(obj))
+
+
 def _hx_state(hx):
-    return {
+    hx = deepcopy(hx)
+    out = {
         "managers": {k: (snap(m.candles), m.timeframe, m.timeframe_fill, repr(m.candles_lifespan)) for k, m in hx._candles.items()},
-        "indicators": {k: _state(i) for k, i in hx._indicators.items()},
-        "attrs": {k: repr(v) for k, v in sorted(vars(hx).items()) if k not in ("_candles", "_indicators")},
+        "attrs": {k: repr(v) for k, v in sorted(vars(hx).items()) if not k.startswith("_")},
+        "indicator_settings": repr(hx.indicator_settings),
+        "timeframes": sorted(hx.timeframes),
+        "indicators": {},
     }
+    for k, ind in hx.indicators.items():
+        o = _observe_indicator(ind)
+        if o.get("has_candles_attr"):
+            o["hx.reading"] = hx.reading(k)
+            o["hx.prev_reading"] = hx.prev_reading(k)
+            o["hx.has_reading"] = hx.has_reading(k)
+            o["hx.reading_as_list"] = hx.reading_as_list(k)
+        out["indicators"][k] = o
+    return out
 
 
 def _do_read(obj, what, arg, is_hx, names):
@@ -180,21 +218,28 @@ def _do_read(obj, what, arg, is_hx, names):
     return None
 
 
-def _make(case):
+def _make(case, reads=False):
     from hexital import Hexital
 
+    from datetime import timedelta
+
+    life = timedelta(seconds=case["lifespan"]) if case.get("lifespan") else None
     if case["target"] == "indicator":
-        return build_indicator(case["cfg"], **({"timeframe": case["tf"]} if case.get("tf") else {})), []
+        return build_indicator(case["cfg"], **({"timeframe": case["tf"]} if case.get("tf") else {}), **({"candles_lifespan": life} if life else {})), []
     inds = [build_indicator(m["cfg"], **({"timeframe": m["tf"]} if m["tf"] else {})) for m in case["members"]]
     names = [i.name for i in inds]
-    return Hexital("c19", [], inds, **({"timeframe": case["tf"]} if case.get("tf") else {})), names
+    if reads:  # read-only calls on the members before the Hexital adopts them (the twin's members are not read)
+        for ind in inds:
+            for what in case.get("pre_reads", []):
+                str(ind) if what == "str" else ind.as_list() if what == "as_list" else getattr(ind, what)
+    return Hexital("c19", [], inds, candles_lifespan=life or timedelta(hours=12), **({"timeframe": case["tf"]} if case.get("tf") else {})), names
 
 
 def run_case(case) -> Result:
     is_hx = case["target"] == "hexital"
     labels = []
     try:
-        real, names = _make(case)
+        real, names = _make(case, reads=True)
         twin, _ = _make(case)
     except Exception:
         return Result([], False, ["setup_raises"])
@@ -232,7 +277,7 @@ def run_case(case) -> Result:
             sent += op["rows"]
             if before is not None and not same(before, payload):
                 return Result([Violation("caller-container-modified", "append:" + op["enc"].replace("_single", ""), f"{where}: passed {before!r}, afterwards {payload!r}", "append")], read_then_append, labels)
-            if is_hx and sent and sent[0][0] is not None:
+            if is_hx and sent and sent[0][0] is not None and not case.get("lifespan"):
                 for mname, m in real._candles.items():
                     if m.timeframe:
                         want = rr.resample(sent, tf_seconds(m.timeframe))
